@@ -39,7 +39,7 @@ RULE = ('CSV files generated from one PRNG: 3-4 columns (label anywhere, a uniqu
         'Non-trivial = at least two processed batches or a fired tail rule, with at least one malformed selected row; '
         'distinct = distinct (B, sub, validity pattern). ' + corr_E2E.RULE_E2E)
 ASSUMPTIONS = ['lines are abstract in the model: per line only "csv field count == header field count" (computed by the harness as '
-               'comma count + 1, 0 for an empty line; generated fields contain no quotes) and an identifier; the parser itself is C16',
+               'comma count + 1, 0 for an empty line; generated fields of VALID rows contain no quotes; malformed rows may carry an unclosed quote, which leaves their field count below the width of the header under the per-line reader) and an identifier; the parser itself is C16',
                'scores are the per-batch triplets recorded from the implementation (scoring is C05); every finite float is an exact rational; '
                'for an even group pandas returns fl((a+b)/2), which equals the correctly rounded exact mean (no over/underflow in the generated range): compared bit for bit',
                'pandas groupby sorts its keys (compared in order); sort_values is not stable: tie rows of pairwise_ranks.tsv are compared as multisets (Lean finalOkB)',
@@ -75,7 +75,7 @@ def gen_case(rng: random.Random, thorough=False, cli=False):
             # per-batch combination cap: mostly not binding; small caps make different pairs be scored in different batches, so a
             # pair can appear for the first time in a LATER batch (checkpoints / medians must still cover every batch so far)
             'cap': rng.choice([2048, 2048, 2048, 1, 2, 3]) if not cli else 2048,
-            'ctrl': rng.random() < 0.3, 'coldesc': 'tuple' if (rng.random() < 0.25 and not cli) else 'list'}
+            'ctrl': rng.random() < 0.3, 'quote_rows': rng.random() < 0.3, 'coldesc': 'tuple' if (rng.random() < 0.25 and not cli) else 'list'}
 
 
 def build(case):
@@ -108,7 +108,11 @@ def build(case):
         return ','.join(vals)
 
     def bad(i):
-        kind = r.choice(['few', 'many', 'empty', 'one'])
+        kind = r.choice(['few', 'many', 'empty', 'one', 'quote'] if case.get('quote_rows') else ['few', 'many', 'empty', 'one'])
+        if kind == 'quote':
+            # a malformed row with an UNCLOSED double quote: it is one row of too few fields (comma count + 1 < header width for the
+            # 3- and 4-column files here) and ends at its line end – the rows after it are rows of their own
+            return r.choice(['7,"3', '"', 'x,"'])
         if kind == 'few':
             v = valid(i).split(',')
             del v[r.randrange(len(v))]
